@@ -38,6 +38,7 @@ type pcase struct {
 	Trait    string   `json:"trait"`
 	N        int      `json:"n"`
 	Events   []pevent `json:"events"`
+	FailSend int      `json:"fail_send,omitempty"` // k > 0: the k-th server.Send fails (the subscriber has gone)
 }
 
 func (p pcase) line() string {
@@ -49,17 +50,29 @@ func (p pcase) line() string {
 		}
 		evs[i] = strconv.Itoa(e.Member) + ":" + strings.Join(vs, ".")
 	}
-	return fmt.Sprintf("pull %s %d %s", p.Trait, p.N, dash(strings.Join(evs, ",")))
+	return fmt.Sprintf("pull %s %d %s %d", p.Trait, p.N, dash(strings.Join(evs, ",")), p.FailSend)
 }
 
 func (p pcase) fn() string { return acase{Trait: p.Trait, RPC: "Pull"}.fn() }
 
 type fwdRecorder struct {
-	mu  sync.Mutex
-	all []string
+	mu     sync.Mutex
+	all    []string
+	failAt int // the failAt-th Send fails (0: never)
 }
 
-func (f *fwdRecorder) add(v string) { f.mu.Lock(); f.all = append(f.all, v); f.mu.Unlock() }
+var errSubscriberGone = fmt.Errorf("subscriber has gone")
+
+// add records a value the Group tried to forward; the error is what server.Send returns for it.
+func (f *fwdRecorder) add(v string) error {
+	f.mu.Lock()
+	defer f.mu.Unlock()
+	f.all = append(f.all, v)
+	if f.failAt > 0 && len(f.all) == f.failAt {
+		return errSubscriberGone
+	}
+	return nil
+}
 func (f *fwdRecorder) list() []string {
 	f.mu.Lock()
 	defer f.mu.Unlock()
@@ -68,10 +81,12 @@ func (f *fwdRecorder) list() []string {
 
 type fedLightClient struct {
 	traits.LightApiClient
-	ch []chan []int
+	ch   []chan []int
+	ctxs *ctxLog
 }
 
 func (c *fedLightClient) PullBrightness(ctx context.Context, in *traits.PullBrightnessRequest, _ ...grpc.CallOption) (grpc.ServerStreamingClient[traits.PullBrightnessResponse], error) {
+	c.ctxs.add(ctx)
 	return &fedLightStream{ctx: ctx, ch: c.ch[memberIndex(in.Name)], name: in.Name}, nil
 }
 
@@ -104,10 +119,12 @@ type fwdLightServer struct {
 func (s *fwdLightServer) Context() context.Context { return s.ctx }
 func (s *fwdLightServer) Send(r *traits.PullBrightnessResponse) error {
 	for _, ch := range r.Changes {
-		if ch.GetBrightness() == nil {
-			s.rec.add("nil")
-		} else {
-			s.rec.add(fmtLevel(ch.GetBrightness().GetLevelPercent()))
+		v := "nil"
+		if ch.GetBrightness() != nil {
+			v = fmtLevel(ch.GetBrightness().GetLevelPercent())
+		}
+		if err := s.rec.add(v); err != nil {
+			return err
 		}
 	}
 	return nil
@@ -115,10 +132,38 @@ func (s *fwdLightServer) Send(r *traits.PullBrightnessResponse) error {
 
 type fedOnOffClient struct {
 	traits.OnOffApiClient
-	ch []chan []int
+	ch   []chan []int
+	ctxs *ctxLog
+}
+
+// ctxLog: the contexts the member streams were opened with.
+type ctxLog struct {
+	mu  sync.Mutex
+	all []context.Context
+}
+
+func (l *ctxLog) add(ctx context.Context) { l.mu.Lock(); l.all = append(l.all, ctx); l.mu.Unlock() }
+
+// state: "1" every member context is cancelled, "0" none is, "x" mixed, "-" no member
+func (l *ctxLog) state() string {
+	l.mu.Lock()
+	defer l.mu.Unlock()
+	st := "-"
+	for _, ctx := range l.all {
+		s := "0"
+		if ctx.Err() != nil {
+			s = "1"
+		}
+		if st != "-" && st != s {
+			return "x"
+		}
+		st = s
+	}
+	return st
 }
 
 func (c *fedOnOffClient) PullOnOff(ctx context.Context, in *traits.PullOnOffRequest, _ ...grpc.CallOption) (grpc.ServerStreamingClient[traits.PullOnOffResponse], error) {
+	c.ctxs.add(ctx)
 	return &fedOnOffStream{ctx: ctx, ch: c.ch[memberIndex(in.Name)], name: in.Name}, nil
 }
 
@@ -151,10 +196,12 @@ type fwdOnOffServer struct {
 func (s *fwdOnOffServer) Context() context.Context { return s.ctx }
 func (s *fwdOnOffServer) Send(r *traits.PullOnOffResponse) error {
 	for _, ch := range r.Changes {
-		if ch.GetOnOff() == nil {
-			s.rec.add("nil")
-		} else {
-			s.rec.add(onoffName(ch.GetOnOff().GetState()))
+		v := "nil"
+		if ch.GetOnOff() != nil {
+			v = onoffName(ch.GetOnOff().GetState())
+		}
+		if err := s.rec.add(v); err != nil {
+			return err
 		}
 	}
 	return nil
@@ -176,15 +223,28 @@ func runPullLoop(p pcase) (out string) {
 	}
 	ctx, cancel := context.WithCancel(context.Background())
 	defer cancel()
-	rec := &fwdRecorder{}
+	rec := &fwdRecorder{failAt: p.FailSend}
+	ctxs := &ctxLog{}
 	done := make(chan error, 1)
 	go func() {
 		if p.Trait == "light" {
-			done <- lightpb.NewGroup(&fedLightClient{ch: chs}, names...).PullBrightness(&traits.PullBrightnessRequest{Name: "G"}, &fwdLightServer{ctx: ctx, rec: rec})
+			done <- lightpb.NewGroup(&fedLightClient{ch: chs, ctxs: ctxs}, names...).PullBrightness(&traits.PullBrightnessRequest{Name: "G"}, &fwdLightServer{ctx: ctx, rec: rec})
 		} else {
-			done <- onoffpb.NewGroup(&fedOnOffClient{ch: chs}, names...).PullOnOff(&traits.PullOnOffRequest{Name: "G"}, &fwdOnOffServer{ctx: ctx, rec: rec})
+			done <- onoffpb.NewGroup(&fedOnOffClient{ch: chs, ctxs: ctxs}, names...).PullOnOff(&traits.PullOnOffRequest{Name: "G"}, &fwdOnOffServer{ctx: ctx, rec: rec})
 		}
 	}()
+	// ended: the subscription has returned by itself after k messages (the harness has not cancelled anything):
+	// which error, and are the members' contexts cancelled (the remaining members are cancelled once the outcome is decided)
+	ended := func(err error, k int) string {
+		class := "?" + errClassCode(err)
+		switch {
+		case err == errSubscriberGone:
+			class = "senderr"
+		case err == nil:
+			class = "nil"
+		}
+		return fmt.Sprintf("fwd=%s end=%s after=%d ctx=%s", dash(strings.Join(rec.list(), ",")), class, k, ctxs.state())
+	}
 	if _, ok := waitQuietOutside(base); !ok {
 		return "!stuck:start"
 	}
@@ -195,18 +255,23 @@ func runPullLoop(p pcase) (out string) {
 		case <-time.After(adapterWait):
 			return "!stuck:empty-group-does-not-return"
 		}
-		return "fwd=" + dash(strings.Join(rec.list(), ","))
+		return "fwd=" + dash(strings.Join(rec.list(), ",")) + " end=harness"
 	}
 	for k, e := range p.Events {
 		select {
 		case chs[e.Member] <- e.Vals:
-		case <-done:
-			return fmt.Sprintf("!ended-before-event-%d", k)
+		case err := <-done:
+			return ended(err, k)
 		case <-time.After(adapterWait):
 			return fmt.Sprintf("!stuck:member-not-receiving-at-event-%d", k)
 		}
 		if _, ok := waitQuietOutside(base); !ok {
 			return fmt.Sprintf("!stuck:event-%d", k)
+		}
+		select {
+		case err := <-done:
+			return ended(err, k+1)
+		default:
 		}
 	}
 	cancel()
@@ -216,7 +281,7 @@ func runPullLoop(p pcase) (out string) {
 		return "!stuck:does-not-end-on-cancel"
 	}
 	waitQuietOutside(base)
-	return "fwd=" + dash(strings.Join(rec.list(), ","))
+	return "fwd=" + dash(strings.Join(rec.list(), ",")) + " end=harness"
 }
 
 // pullSpec: the forwarded sequence by the property's own words.
@@ -224,7 +289,7 @@ func pullSpec(p pcase) string {
 	latest := make([]int, p.N) // 0: nothing yet
 	var fwd []string
 	last := ""
-	for _, e := range p.Events {
+	for k, e := range p.Events {
 		if len(e.Vals) == 0 {
 			continue
 		}
@@ -256,17 +321,30 @@ func pullSpec(p pcase) string {
 		if cur != last {
 			fwd = append(fwd, cur)
 			last = cur
+			if p.FailSend > 0 && len(fwd) == p.FailSend {
+				// the subscriber has gone: the subscription ends with Send's error once every member has been cancelled
+				return fmt.Sprintf("fwd=%s end=senderr after=%d ctx=1", strings.Join(fwd, ","), k+1)
+			}
 		}
 	}
-	return "fwd=" + dash(strings.Join(fwd, ","))
+	return "fwd=" + dash(strings.Join(fwd, ",")) + " end=harness"
 }
 
 func sameFwd(a, b string) bool {
 	if a == b {
 		return true
 	}
-	x, y := strings.Split(strings.TrimPrefix(a, "fwd="), ","), strings.Split(strings.TrimPrefix(b, "fwd="), ",")
-	if len(x) != len(y) || !strings.HasPrefix(a, "fwd=") || !strings.HasPrefix(b, "fwd=") {
+	fa, fb := strings.Fields(a), strings.Fields(b)
+	if len(fa) != len(fb) || len(fa) == 0 || !strings.HasPrefix(fa[0], "fwd=") || !strings.HasPrefix(fb[0], "fwd=") {
+		return false
+	}
+	for i := 1; i < len(fa); i++ {
+		if fa[i] != fb[i] {
+			return false
+		}
+	}
+	x, y := strings.Split(strings.TrimPrefix(fa[0], "fwd="), ","), strings.Split(strings.TrimPrefix(fb[0], "fwd="), ",")
+	if len(x) != len(y) {
 		return false
 	}
 	for i := range x {
@@ -286,7 +364,7 @@ func pullLoopMonitor(mon *lib.Monitor, p pcase, code string) {
 	case strings.HasPrefix(code, "!"):
 		mon.Violate(sig+"stalled", "the subscription did not take a member's message / did not end", p, pullSpec(p), code)
 	case !sameFwd(code, pullSpec(p)):
-		mon.Violate(sig+"forwarded", "the values forwarded are not: after each member message the reduction of the members' latest values, whenever it differs from the last one forwarded",
+		mon.Violate(sig+"forwarded", "not: after each member message the reduction of the members' latest values is forwarded whenever it differs from the last one forwarded; when a Send fails the subscription ends by itself with that error and every member's context cancelled",
 			p, pullSpec(p), code)
 	}
 }
@@ -304,10 +382,12 @@ func pullLoopCases(f lib.Flags, rng *rand.Rand) []pcase {
 				}
 			}
 			out = append(out, pcase{PullLoop: true, Trait: tr, N: n})
-			for _, a := range evs {
-				out = append(out, pcase{PullLoop: true, Trait: tr, N: n, Events: []pevent{a}})
-				for _, b := range evs {
-					out = append(out, pcase{PullLoop: true, Trait: tr, N: n, Events: []pevent{a, b}})
+			for fail := 0; fail <= 2; fail++ {
+				for _, a := range evs {
+					out = append(out, pcase{PullLoop: true, Trait: tr, N: n, Events: []pevent{a}, FailSend: fail})
+					for _, b := range evs {
+						out = append(out, pcase{PullLoop: true, Trait: tr, N: n, Events: []pevent{a, b}, FailSend: fail})
+					}
 				}
 			}
 		}
@@ -325,6 +405,9 @@ func pullLoopCases(f lib.Flags, rng *rand.Rand) []pcase {
 			}
 			p.Events = append(p.Events, ev)
 		}
+		if rng.Intn(3) == 0 {
+			p.FailSend = 1 + rng.Intn(3)
+		}
 		out = append(out, p)
 	}
 	return out
@@ -333,11 +416,11 @@ func pullLoopCases(f lib.Flags, rng *rand.Rand) []pcase {
 func runPullLoops(f lib.Flags, res *lib.Result, drv *lib.Driver, rng *rand.Rand) {
 	tie := res.Tie("group-pull-loop", "K4",
 		"the subscription loop of lightpb.Group.PullBrightness / onoffpb.Group.PullOnOff over scripted member streams fed by the harness one message at a time (whole-process quiescence between messages): "+
-			"EXHAUSTIVE for 0..2 members x every sequence of at most 2 messages x message content {no change, one change, another, two changes}; random: 1..4 members, 0..8 messages of 0..3 changes over few distinct values. "+
-			"model = driver op `pull` (slots, reduction, dedup against the last value forwarded); compared: the sequence of values forwarded. non-trivial = at least one message; distinct by full input")
+			"EXHAUSTIVE for 0..2 members x every sequence of at most 2 messages x message content {no change, one change, another, two changes} x {no Send fails, the 1st, the 2nd}; random: 1..4 members, 0..8 messages of 0..3 changes over few distinct values, a failing k-th Send (k<=3) in a third of them. "+
+			"model = driver op `pull` (slots, reduction, dedup against the last value forwarded, end of the loop on a Send error); compared: the sequence of values forwarded, and whether the subscription ended by itself: after which message, with which error, members' contexts cancelled. non-trivial = at least one message; distinct by full input")
 	mon := res.Monitor("group-pull-loop-contract",
 		"the same executions against the loop's contract stated independently: after each member message with changes the group's value is the reduction (light: mean, onoff: ON wins) of the members' latest values, "+
-			"and it is forwarded exactly when it differs from the value forwarded last; the subscription takes every message and ends on cancellation")
+			"and it is forwarded exactly when it differs from the value forwarded last; the subscription takes every message and ends on cancellation; when a Send fails it ends by itself with Send's error after cancelling every member")
 	cases := pullLoopCases(f, rng)
 	var answers []string
 	if drv != nil {
@@ -388,7 +471,9 @@ func runPullLoops(f lib.Flags, res *lib.Result, drv *lib.Driver, rng *rand.Rand)
 		}
 		tie.Count(p.Trait)
 		tie.Count(fmt.Sprintf("n=%d", p.N))
-		tie.Count(fmt.Sprintf("forwarded=%d", len(strings.Split(strings.TrimPrefix(code, "fwd="), ","))))
+		if strings.Contains(code, "end=senderr") {
+			tie.Count("ended-by-send-error")
+		}
 		pullLoopMonitor(mon, p, code)
 	}
 }
